@@ -167,6 +167,7 @@ type vxC20AuthCase struct {
 	Class     string   `json:"class"`     // offered by the server in AUTHENTICATE
 	Allowed   []string `json:"allowed"`   // PasswordAuthenticator.AllowedAuthenticators (nil: built-in list)
 	HasAuth   bool     `json:"has_auth"`  // an Authenticator is configured
+	Provider  bool     `json:"provider,omitempty"` // ... through ClusterConfig.AuthProvider (a function of the host) instead of ClusterConfig.Authenticator
 	User      string   `json:"user"`
 	Pass      string   `json:"pass"`
 	FollowUp  string   `json:"follow_up"` // SUCCESS CHALLENGE ERROR
@@ -188,9 +189,9 @@ var vxApprovedClasses = []string{
 func TestVxC20AuthSession(t *testing.T) {
 	vx.Check(t, vx.Prop{
 		ID: "C20", Part: "TestVxC20AuthSession",
-		Rule: "protocol 2..5; server demands authentication with a class from the built-in approved list or a near-miss (case change, prefix, suffix, empty, look-alike); client with / without a PasswordAuthenticator whose AllowedAuthenticators is nil or a custom list; user/password incl. empty, NUL, non-ASCII; server follow-up AUTH_SUCCESS / AUTH_CHALLENGE / ERROR; oracle at the node: an AUTH_RESPONSE is sent iff an authenticator is configured and the class is on the effective list, and its token is exactly 0x00 user 0x00 password; no authenticator or unapproved class => CreateSession fails and no credentials leave; CHALLENGE/ERROR => CreateSession fails (never a crash, never a session); non-trivial = near-miss class or unexpected follow-up; distinct by the case",
+		Rule: "protocol 2..5; server demands authentication with a class from the built-in approved list or a near-miss (case change, prefix, suffix, empty, look-alike); client with / without a PasswordAuthenticator (ClusterConfig.Authenticator, or handed out per host by ClusterConfig.AuthProvider) whose AllowedAuthenticators is nil or a custom list; user/password incl. empty, NUL, non-ASCII; server follow-up AUTH_SUCCESS / AUTH_CHALLENGE / ERROR; oracle at the node: an AUTH_RESPONSE is sent iff an authenticator is configured and the class is on the effective list, and its token is exactly 0x00 user 0x00 password; no authenticator or unapproved class => CreateSession fails and no credentials leave; CHALLENGE/ERROR => CreateSession fails (never a crash, never a session); non-trivial = near-miss class or unexpected follow-up; distinct by the case",
 		Draw: func(t *rapid.T) interface{} {
-			c := &vxC20AuthCase{Proto: rapid.IntRange(2, 5).Draw(t, "proto"), HasAuth: rapid.IntRange(0, 4).Draw(t, "hasauth") > 0,
+			c := &vxC20AuthCase{Proto: rapid.IntRange(2, 5).Draw(t, "proto"), Provider: rapid.IntRange(0, 2).Draw(t, "provider") == 0, HasAuth: rapid.IntRange(0, 4).Draw(t, "hasauth") > 0,
 				User: rapid.OneOf(rapid.Just("cassandra"), rapid.Just(""), rapid.String(), rapid.Just("a\x00b")).Draw(t, "user"),
 				Pass: rapid.OneOf(rapid.Just("secret"), rapid.Just(""), rapid.String(), rapid.Just("pässwörd")).Draw(t, "pass"),
 				FollowUp: rapid.SampledFrom([]string{"SUCCESS", "SUCCESS", "SUCCESS", "CHALLENGE", "ERROR"}).Draw(t, "follow")}
@@ -270,7 +271,12 @@ func TestVxC20AuthSession(t *testing.T) {
 					cfg.ConnectTimeout = 2 * time.Second
 					cfg.Timeout = 2 * time.Second
 					if c.HasAuth {
-						cfg.Authenticator = PasswordAuthenticator{Username: c.User, Password: c.Pass, AllowedAuthenticators: c.Allowed}
+						pa := PasswordAuthenticator{Username: c.User, Password: c.Pass, AllowedAuthenticators: c.Allowed}
+						if c.Provider {
+							cfg.AuthProvider = func(h *HostInfo) (Authenticator, error) { return pa, nil }
+						} else {
+							cfg.Authenticator = pa
+						}
 					}
 				}).CreateSession()
 			}()
@@ -754,6 +760,11 @@ type vxC03SessCase struct {
 	Binds    []vxC03Bind         `json:"binds,omitempty"`   // prepared
 	BatchTyp int                 `json:"batch_type,omitempty"`
 	Entries  [][]vxC03Bind       `json:"entries,omitempty"` // batch: per entry its binds (none: plain text entry)
+	// cluster-wide defaults instead of per-statement options
+	CfgNoTS   bool   `json:"cfg_no_ts,omitempty"`   // ClusterConfig.DefaultTimestamp = false
+	CfgSerial int    `json:"cfg_serial,omitempty"`  // ClusterConfig.SerialConsistency (8 serial, 9 local serial)
+	CfgCQL    string `json:"cfg_cql,omitempty"`     // ClusterConfig.CQLVersion (STARTUP's CQL_VERSION)
+	ConsVia   int    `json:"cons_via,omitempty"`    // 0 on the statement, 1 ClusterConfig.Consistency, 2 Session.SetConsistency
 }
 
 func vxDrawBinds(t *rapid.T, proto int, min int) []vxC03Bind {
@@ -801,7 +812,7 @@ func vxBindArgs(binds []vxC03Bind, named bool) ([]interface{}, []cqlspec.ReqValu
 func TestVxC03Session(t *testing.T) {
 	vx.Check(t, vx.Prop{
 		ID: "C03", Part: "TestVxC03Session",
-		Rule: "a real session (protocol 1..5, snappy or none, keyspace or none) executes one request through the public API: an unprepared query, a prepared query with 1..4 bound values (int / text / nil / UnsetValue(v4+), optionally NamedValue(v3+)) or a batch (type, 0..3 entries with 0..4 values); options drawn: consistency, page size (set / default / 0), paging state, serial consistency, timestamp (default now / explicit / disabled), tracing, custom payload (v4+), NoSkipMetadata; the frame the node received is decoded by lib/cqlspec and compared with what was asked; non-trivial = >= 2 options or a null/unset/named value; distinct by the case",
+		Rule: "a real session (protocol 1..5, snappy or none, keyspace or none) executes one request through the public API: an unprepared query, a prepared query with 1..4 bound values (int / text / nil / UnsetValue(v4+), optionally NamedValue(v3+)) or a batch (type, 0..3 entries with 0..4 values); options drawn: consistency (on the statement, ClusterConfig.Consistency or Session.SetConsistency), page size (set / default / 0), paging state, serial consistency (statement or ClusterConfig.SerialConsistency), timestamp (default now / explicit / disabled, ClusterConfig.DefaultTimestamp on or off), ClusterConfig.CQLVersion (STARTUP), tracing, custom payload (v4+), NoSkipMetadata; the frame the node received is decoded by lib/cqlspec and compared with what was asked; non-trivial = >= 2 options or a null/unset/named value; distinct by the case",
 		Draw: func(t *rapid.T) interface{} {
 			c := &vxC03SessCase{Proto: rapid.IntRange(1, 5).Draw(t, "proto"), Snappy: rapid.Bool().Draw(t, "snappy"), Keyspace: rapid.Bool().Draw(t, "ks"),
 				Kind: rapid.SampledFrom([]string{"query", "prepared", "prepared", "batch"}).Draw(t, "kind"),
@@ -812,6 +823,10 @@ func TestVxC03Session(t *testing.T) {
 			if c.TS == 0 {
 				c.TS = 7
 			}
+			c.CfgNoTS = rapid.IntRange(0, 3).Draw(t, "cfg_no_ts") == 0
+			c.CfgSerial = rapid.SampledFrom([]int{0, 0, 8, 9}).Draw(t, "cfg_serial")
+			c.CfgCQL = rapid.SampledFrom([]string{"", "", "3.4.4", "3.0.0", "4.0.0-beta"}).Draw(t, "cfg_cql")
+			c.ConsVia = rapid.SampledFrom([]int{0, 0, 1, 2}).Draw(t, "cons_via")
 			if c.Kind == "batch" && c.Proto < 2 {
 				c.Proto = 2
 			}
@@ -896,18 +911,34 @@ func TestVxC03Session(t *testing.T) {
 				if c.Keyspace {
 					cfg.Keyspace = "ks1"
 				}
+				cfg.DefaultTimestamp = !c.CfgNoTS
+				if c.CfgSerial > 0 {
+					cfg.SerialConsistency = SerialConsistency(c.CfgSerial)
+				}
+				if c.CfgCQL != "" {
+					cfg.CQLVersion = c.CfgCQL
+				}
+				if c.ConsVia == 1 {
+					cfg.Consistency = Consistency(c.Cons)
+				}
 			}).CreateSession()
 			if err != nil {
 				return fmt.Errorf("harness: CreateSession: %v", err)
 			}
 			defer s.Close()
+			if c.ConsVia == 2 {
+				s.SetConsistency(Consistency(c.Cons))
+			}
 			exp := &vxC03Case{Version: c.Proto, Snappy: negotiated, Tracing: c.Trace, Payload: c.Payload, Cons: c.Cons, Serial: c.Serial}
+			if c.Serial == 0 {
+				exp.Serial = c.CfgSerial // the cluster-wide default applies when the statement does not choose
+			}
 			if c.Proto >= 5 && c.Keyspace {
 				exp.Keyspace = "ks1"
 			}
 			switch c.TSMode {
 			case 0:
-				exp.DefTS = true
+				exp.DefTS = !c.CfgNoTS // the cluster-wide default
 			case 1:
 				exp.DefTS, exp.TS = true, c.TS
 			}
@@ -937,7 +968,10 @@ func TestVxC03Session(t *testing.T) {
 				} else {
 					exp.Kind, wantKind, exp.Stmt = "QUERY", "QUERY", stmt
 				}
-				q := s.Query(stmt, args...).Consistency(Consistency(c.Cons))
+				q := s.Query(stmt, args...)
+				if c.ConsVia == 0 {
+					q = q.Consistency(Consistency(c.Cons))
+				}
 				exp.PageSize = 5000
 				if c.PageSize >= 0 {
 					q = q.PageSize(c.PageSize)
@@ -972,7 +1006,9 @@ func TestVxC03Session(t *testing.T) {
 				}
 			case "batch":
 				b := s.NewBatch(BatchType(c.BatchTyp))
-				b.SetConsistency(Consistency(c.Cons))
+				if c.ConsVia == 0 {
+					b.SetConsistency(Consistency(c.Cons))
+				}
 				exp.Kind, wantKind, exp.BatchTyp = "BATCH", "BATCH", c.BatchTyp
 				type ent struct {
 					stmt string
@@ -1040,6 +1076,15 @@ func TestVxC03Session(t *testing.T) {
 				}
 				if l.Req.Header.Stream < 0 || l.Req.Header.Stream > maxStream {
 					return fmt.Errorf("%s frame with stream id %d", l.Req.Kind, l.Req.Header.Stream)
+				}
+				if l.Req.Kind == "STARTUP" {
+					wantCQL := c.CfgCQL
+					if wantCQL == "" {
+						wantCQL = "3.0.0" // NewCluster's documented default
+					}
+					if got := l.Req.Options["CQL_VERSION"]; got != wantCQL {
+						return fmt.Errorf("STARTUP carries CQL_VERSION=%q, ClusterConfig.CQLVersion is %q", got, wantCQL)
+					}
 				}
 				if l.Req.Kind == wantKind && !(wantKind == "QUERY" && l.Req.Statement != stmtQ) {
 					if got != nil {
